@@ -224,7 +224,17 @@ fn prog_once(case: &J, src_override: Option<String>) -> R<J> {
     let src = match (src_override, case.get("src").and_then(|s| s.as_str())) {
         (Some(s), _) => s,
         (None, Some(s)) => s.to_string(),
-        (None, None) => join_tokens(&case["tokens"], sep)?,
+        (None, None) => {
+            // "lead" / "trail": text in front of the first / behind the last token (blank lines, a final comment ...)
+            let mut t = join_tokens(&case["tokens"], sep)?;
+            if let Some(tr) = case.get("trail").and_then(|s| s.as_str()) {
+                t.push_str(tr);
+            }
+            if let Some(ld) = case.get("lead").and_then(|s| s.as_str()) {
+                t.insert_str(0, ld);
+            }
+            t
+        }
     };
     let accept = case["accept"].as_bool();
     let mut issues: Vec<J> = vec![];
@@ -418,6 +428,35 @@ fn prog_once(case: &J, src_override: Option<String>) -> R<J> {
                 if let (Some(exp), Some(obs)) = (expected, verdict_of(&rr.exec)) {
                     if exp != obs {
                         push("verdict", format!("expected {} observed {}", exp, obs));
+                    }
+                }
+            }
+        }
+        // -- pruning again, point-major: the same witness map under one environment after the other on the SAME compiled
+        //    program (the outcome must be a function of (witness, environment), not of the calls made before)
+        if prune {
+            for (pi, point) in points.iter().enumerate() {
+                let vals = point.as_array().ok_or("point")?;
+                for (ei, envj) in envs.iter().enumerate() {
+                    let env = env_from_json(envj);
+                    let mut map = named_values(&wnames, &wtypes, vals)?;
+                    if let Some(names) = case.get("omit").and_then(|o| o.get(pi)).and_then(|o| o.as_array()) {
+                        for n in names.iter().filter_map(|n| n.as_str()) {
+                            map.remove(&WitnessName::from_str_unchecked(n));
+                        }
+                    }
+                    let rr = run_point(&compiled, cmr_bytes, WitnessValues::from(map), &env, true);
+                    n_runs += 1;
+                    let expected = verdicts_env.get(ei).and_then(|row| row.as_array()).and_then(|row| row.get(pi)).and_then(|v| v.as_bool());
+                    let what = match (&rr.satisfy, expected) {
+                        (Err(_), Some(true)) => Some("satisfy_err"),
+                        (Ok(()), Some(false)) => Some("prune_accepts_failing"),
+                        (Ok(()), Some(true)) if verdict_of(&rr.exec) == Some(false) => Some("verdict"),
+                        _ => None,
+                    };
+                    if let Some(what) = what {
+                        issues.push(json!({"at":"run","what":what,"dbg":dbg,"point":pi,"env":ei,"prune":true,
+                            "msg": format!("second pass (one witness map under every environment in turn): {:?} / exec {}", rr.satisfy, rr.exec)}));
                     }
                 }
             }
